@@ -71,6 +71,9 @@ where
 		+ Sync
 		+ 'static,
 {
+	#[cfg(jsonrpsee_verif)]
+	use jsonrpsee_core::verif::rt as tokio;
+
 	let BackgroundTaskParams {
 		server_cfg,
 		conn,
